@@ -29,6 +29,6 @@ func execute(sc cx.Script, rep *kit.Report) error {
 func TestC04(t *testing.T) {
 	r := &kit.Runner[cx.Script]{Name: "TestC04", Exec: execute}
 	r.Run(t, func(rt *rapid.T) cx.Script {
-		return cx.Gen(rt, cx.GenOpts{MaxChans: 2, Groups: 2, MinOps: 12, MaxOps: 45, Deletes: true, GC: true})
+		return cx.Gen(rt, cx.GenOpts{MaxChans: 2, Groups: 2, MinOps: 12, MaxOps: 45, Deletes: true, GC: true, GCDelete: true, SideChannels: true, PersistIntervals: true})
 	})
 }
